@@ -172,6 +172,31 @@ pub fn run_scenario<F: Flav>(sc: &Scenario, rep: &mut Report) -> Vec<String> {
         }
         rep.count("scenarios_with_lookups_before_drop");
     }
+    if sc.extras & 512 != 0 {
+        // a history of searches of every kind (found and absent targets, transposed, cycles, orderings):
+        // whatever scratch state a search leaves behind must not keep nodes alive
+        let absent = sc.n as K + 5;
+        for r in 0..sc.n {
+            for algo in [Algo::Bfs, Algo::Dfs, Algo::PfsMin, Algo::PfsMax] {
+                for tr in [false, true] {
+                    if tr && !F::DIRECTED {
+                        continue;
+                    }
+                    for (mode, target) in [(Mode::Path, Some(absent)), (Mode::Search, Some(((r + 1) % sc.n) as K)), (Mode::Cycle, None), (Mode::Path, Some(((r + sc.n - 1) % sc.n) as K))] {
+                        let mut cfg = Cfg::new(algo, mode);
+                        cfg.transpose = tr;
+                        cfg.target = target;
+                        let _ = F::search(&w.nodes[r], &cfg, None);
+                    }
+                }
+            }
+            for algo in [Algo::Pre, Algo::Post] {
+                let _ = F::search(&w.nodes[r], &Cfg::new(algo, Mode::Nodes), None);
+                let _ = F::search(&w.nodes[r], &Cfg::new(algo, Mode::Edges), None);
+            }
+        }
+        rep.count("scenarios_with_search_history_before_drop");
+    }
     let mut hs: Vec<Option<H<F>>> = take_handles::<F>(&w, sc.extras).into_iter().map(Some).collect();
     // the original handles are handles too
     let World { nodes, .. } = w;
@@ -284,7 +309,7 @@ fn report<F: Flav>(rep: &mut Report, sc: &Scenario, msgs: &[String]) {
 
 pub fn run<F: Flav>(rep: &mut Report, max_n: usize, max_e: usize, random: u64, shard: u64, nshards: u64, rng: &mut Rng) {
     let mut idx = 0u64;
-    let extras_sets: [u32; 12] = [0, 1, 2, 4, 8, 16 | 32, 1 | 2, 2 | 4 | 8, 64 | 128, 255, 256, 256 | 1 | 2 | 128];
+    let extras_sets: [u32; 14] = [0, 1, 2, 4, 8, 16 | 32, 1 | 2, 2 | 4 | 8, 64 | 128, 255, 256, 256 | 1 | 2 | 128, 512, 512 | 256 | 1];
     for n in 1..=max_n {
         for ne in 0..=max_e {
             let total = ((n * n) as u64).pow(ne as u32);
@@ -353,7 +378,7 @@ pub fn run<F: Flav>(rep: &mut Report, max_n: usize, max_e: usize, random: u64, s
     // random: larger structures with removal ops before the drops
     for _ in 0..random {
         let n = 2 + rng.below(7);
-        let ne = rng.below(3 * n);
+        let ne = if rng.chance(1, 2) { rng.below(3 * n) } else { rng.below(8 * n) };
         let edges: Vec<(K, K)> = (0..ne).map(|_| (rng.below(n) as K, rng.below(n) as K)).collect();
         let mut post = vec![];
         for _ in 0..rng.below(6) {
@@ -361,7 +386,7 @@ pub fn run<F: Flav>(rep: &mut Report, max_n: usize, max_e: usize, random: u64, s
             let b = rng.below(n) as K;
             post.push(if rng.chance(1, 4) { Op::Isolate(a) } else { Op::Disconnect(a, b) });
         }
-        let extras = rng.below(512) as u32;
+        let extras = rng.below(1024) as u32;
         let mut order: Vec<usize> = (0..n + 8).collect();
         rng.shuffle(&mut order);
         let sc = Scenario { n, edges, post, extras, order };
